@@ -359,11 +359,11 @@ func (r *fieldSelectionRewriter) processObjectSelection(fieldRef int, objectDefR
 	fieldTypeName := r.definition.ObjectTypeDefinitionNameBytes(objectDefRef)
 	fieldTypeNameStr := r.definition.ObjectTypeDefinitionNameString(objectDefRef)
 
-	if !r.dsConfiguration.HasRootNodeWithTypename(fieldTypeNameStr) {
-		// if the object type is not an entity in the current datasource
-		// we do not need to rewrite it
-		return resultNotRewritten, nil
-	}
+	// if the object type is not an entity in the current datasource we do not need to rewrite it,
+	// unless it has a fragment on another object type: such a fragment can never apply and is invalid on the
+	// subgraph. It gets there when a selection of an abstract field type is copied onto a member of the enclosing
+	// type which declares the field with a narrower type (Node.profile: Profile, User.profile: UserProfile)
+	isEntity := r.dsConfiguration.HasRootNodeWithTypename(fieldTypeNameStr)
 
 	// Doing a full set of checks with collecting inline fragment information
 	// is very expensive, so we are trying to avoid it.
@@ -381,7 +381,10 @@ func (r *fieldSelectionRewriter) processObjectSelection(fieldRef int, objectDefR
 		inlineFragmentRef := r.operation.Selections[inlineFragmentSelectionRef].Ref
 		typeCondition := r.operation.InlineFragmentTypeConditionName(inlineFragmentRef)
 
-		if !bytes.Equal(typeCondition, fieldTypeName) {
+		if bytes.Equal(typeCondition, fieldTypeName) {
+			continue
+		}
+		if node, ok := r.definition.NodeByName(typeCondition); isEntity || (ok && node.Kind == ast.NodeKindObjectTypeDefinition) {
 			hasFragmentsWithNotMatchingType = true
 			break
 		}
